@@ -21,9 +21,26 @@ PROPS = {
                 {"harness": RT + "c08_reset_counters", "fn": "src/runtime.rs :: Runtime::{reset_ud_calls, reset_call_limit}"},
                 {"harness": RT + "c08_reset_then_call", "fn": "src/runtime.rs :: Runtime::{reset_call_limit, increment_call_limit}"},
             ]},
+            {"kind": "verus", "unit": "tail"},
         ],
-        "unreached": [],
-        "assumptions": [],
+        "unreached": [
+            "RuntimeLimits::search_iter and the searching builtins (iterator towers / native closures)",
+            "that every route by which library code calls a user function goes through eval_func_with_values (argued from visibility, not proved)",
+            "from_template: that the depth test precedes the evaluation of the declarations (only the height computation and the test itself are under contract)",
+        ],
+        "assumptions": ["an evaluation performs fewer than 2^64 consecutive tail calls / nested frames (usize counters)"],
+    },
+    "C07": {
+        "level": "proof",
+        "units": [
+            {"kind": "verus", "unit": "tail"},
+        ],
+        "unreached": [
+            "RuntimeScope::eval (Call arm: when a TailCall is constructed) and the natives that forward the tail flag (iterator chains, macros over dyn Any)",
+            "that the trampoline computes what ordinary recursion computes (needs a semantics of evaluation)",
+        ],
+        "assumptions": ["contracts of from_template / eval / increment_call_limit / check_timeout as stated in tail.prelude.rs (ghost history)",
+                        "an evaluation performs fewer than 2^64 consecutive tail calls"],
     },
     "C09": {
         "level": "proof",
@@ -34,6 +51,7 @@ PROPS = {
                 {"harness": RT + "c09_allocate_deallocate_balance", "fn": "src/runtime.rs :: Runtime::{allocate, deallocate}"},
                 {"harness": RT + "c09_can_allocate_by", "fn": "src/runtime.rs :: Runtime::can_allocate_by"},
                 {"harness": RT + "c09_allocate_monotone_in_limit", "fn": "src/runtime.rs :: Runtime::allocate"},
+                {"harness": RT + "c09_managed_error_new_and_drop", "fn": "src/xvalue.rs :: ManagedXError::{new, drop}"},
             ]},
         ],
         "unreached": [],
@@ -46,6 +64,8 @@ PROPS = {
                 {"harness": RT + "c11_default_table", "fn": "src/builtin/builtin_permissions.rs :: NOW, PRINT, PRINT_DEBUG, RANDOM, REGEX, SLEEP"},
             ]},
             {"kind": "verus", "unit": "perm"},
+            {"kind": "verus", "unit": "guard"},
+            {"kind": "scan", "spec": "effect_sites"},
         ],
         "unreached": [],
         "assumptions": [],
@@ -55,7 +75,9 @@ PROPS = {
         "units": [
             {"kind": "kani-incrate", "harnesses": [
                 {"harness": RT + "c13_checked_float_ctor", "fn": "src/xvalue.rs :: XValue::float"},
+                {"harness": RT + "c13_neg_preserves_finiteness", "fn": "src/builtin/floats.rs :: add_float_neg (operation lemma for the site's operand expression `-a`)"},
             ]},
+            {"kind": "scan", "spec": "float_ctor"},
         ],
         "unreached": [],
         "assumptions": [],
@@ -86,6 +108,7 @@ PROPS = {
                     ("ss_div_canonical", "impl Div for LazyBigint (Short x Short, rhs > 0)"),
                     ("neg_value_short", "impl Neg for LazyBigint (Short)"),
                     ("cmp_short", "impl Ord for LazyBigint (Short x Short), derived PartialEq"),
+                    ("from_f64_exact", "impl FromPrimitive for LazyBigint :: from_f64 (all finite f64; BigInt::from_f64 stubbed by a constant)"),
                 ]
             ] + [
                 {"harness": "harness::from_bigint_2digits", "fn": "src/util/lazy_bigint.rs :: impl<T> From<T> for LazyBigint (T = BigInt)",
@@ -109,9 +132,15 @@ PROPS = {
 CLAIMS = {
     "C08": {
         "engine": "kani",
-        "technique": "contract-based deductive verification: Kani (CBMC) loop-free full-domain harnesses in contract form on the real Runtime limit primitives",
-        "text": "Each limit primitive of src/runtime.rs is checked against its one-step contract for every value of the counter and of the limit (loop-free harness over full-width symbolic scalars = complete proof of that function's contract); the history statement is the induction over the step contract.",
+        "technique": "contract-based deductive verification: Kani (CBMC) loop-free full-domain harnesses in contract form on the real Runtime limit primitives; Verus contract with a ghost call history on the trampoline and the depth computation",
+        "text": "Each limit primitive of src/runtime.rs is checked against its one-step contract for every value of the counter and of the limit (loop-free harness over full-width symbolic scalars = complete proof of that function's contract); the trampoline is proved to count the user call and check the timeout exactly once before any frame is built and to fail with MaximumRecursion exactly when the tail-call count exceeds the limit; the frame height and the depth test are proved as stated.",
         "note": "Decides the counters and their reset only; that every call path goes through them is argued from visibility, not proved. Trusted: Kani/CBMC, the in-crate build substitutions.",
+    },
+    "C07": {
+        "engine": "vx+verus",
+        "technique": "contract-based deductive verification: Verus contract with a ghost call history on the real text of the trampoline arm of RuntimeScope::eval_func_with_values",
+        "text": "Narrow: the trampoline is proved, for every number of iterations, to evaluate the body in tail mode once per frame, to re-enter only on TailCall, never to let a TailCall escape to its caller, to build every frame on the caller's scope (no stack depth consumed), and to end in MaximumRecursion exactly when the number of consecutive tail self-calls exceeds the recursion limit.",
+        "note": "Where a TailCall is produced (eval's Call arm) and the natives that forward the tail flag are unreached; semantic equivalence with ordinary recursion is not decided. Dependencies by stated contracts with a ghost history.",
     },
     "C09": {
         "engine": "kani",
